@@ -332,7 +332,13 @@ func quote(v rt.Value) (string, bool) {
 	}
 	switch v.Type() {
 	case rt.IntType:
-		return strconv.Itoa(int(v.AsInt())), true
+		n := v.AsInt()
+		if n == math.MinInt64 {
+			// The decimal literal is read as minus a number that does not
+			// fit an integer, so it would be a float
+			return "0x8000000000000000", true
+		}
+		return strconv.Itoa(int(n)), true
 	case rt.FloatType:
 		x := v.AsFloat()
 		if math.IsInf(x, 0) {
